@@ -96,10 +96,13 @@ def member_offset(fmt, j):
 
 
 def rand_value(rng, letter):
-    if letter == "x":      # scaled integer n of a dyadic decimal n / 100000 (n = k * 3125 * 2**(5-j))
+    if letter == "x":      # scaled integer n of a decimal n / 100000: five-place decimals, or exact dyadic ones (n = k * 3125 * 2**(5-j))
         r = rng.random()
         if r < 0.1:
             return rng.choice([0, 100000, -100000, 3125, -3125, 2 ** 46 * 100000, -2 ** 46 * 100000])
+        if r < 0.45:       # any decimal with five places (0.29, 4.35, ...): k / 100000 is not exact as a float, but the
+            # nearest scaled integer of the float is k again (|k| < 2**40: the error of v * 100000 stays below 2**-11)
+            return rng.choice([29000, 435000, -29000, 1, -1, 99999, rng.randrange(-2 ** 40, 2 ** 40), rng.randrange(-10 ** 6, 10 ** 6)])
         return rng.randrange(-2 ** 30, 2 ** 30) * 3125 * 2 ** rng.randrange(0, 6)
     bits = 8 * struct.calcsize(letter)
     lo, hi = (-(1 << (bits - 1)), (1 << (bits - 1)) - 1) if letter.islower() else (0, (1 << bits) - 1)
@@ -364,7 +367,8 @@ def to_py(fmt, vals):
     """the Python value handed to / expected from the descriptor"""
     if fmt == "x":
         v = vals[0] / fixed_base()
-        assert Fraction(v) * fixed_base() == vals[0], "x value is not an exact dyadic decimal"
+        assert round(Fraction(v) * fixed_base()) == vals[0] and (abs(vals[0]) < 2 ** 41 or Fraction(v) * fixed_base() == vals[0]), \
+            "x value is neither a five-place decimal of moderate size nor an exact dyadic one"
         return v
     return vals[0] if len(vals) == 1 else tuple(vals)
 
